@@ -11,7 +11,8 @@ PROPS_MODULE = "C06_Properties"
 THEOREMS = ["C06_upper", "C06_upper_closed", "C06_upper_concurrent", "C06_spec_conc", "C06_upper_skew",
             "C06_stale_clock_refuted", "C06_upper_closed_strict_refuted",
             "C06_lower_tokens", "C06_lower", "C06_fresh", "C06_rejects_rest", "C06_resize",
-            "C06_sync_by_name", "C06_sync_windows", "C06_request_kind_irrelevant",
+            "C06_sync_by_name", "C06_sync_windows", "C06_type_change_installs_bucket", "C06_other_type_not_bucket",
+            "C06_request_kind_irrelevant",
             "C06_spec_closed", "C06_spec_open", "C06_spec_lower", "C06_closed_ok_iff", "C06_open_all_iff"]
 EVAL = "C06_Check.eval"
 CLAUSES = ["agree", "closed", "open", "lower", "status", "lookup"]
@@ -202,6 +203,21 @@ def corpus():
                    [{"op": "sync", "spec": [sch("new", "mi", max=1), tb]}] + tries([NS + 5]) +                     # identical
                    [{"op": "sync", "spec": [sch("new", "mi", max=1), sch("tb", "tb", q=1, b=2)]}] + tries([NS + 6] * 3) +  # tb itself
                    [{"op": "sync", "spec": [sch("tb", "tb", q=1, b=2)]}] + tries([NS + 7, 3 * NS, 3 * NS])})
+    # the schema of the SAME NAME changes type in place: whatever limiter it had, a change to tokenBucket installs
+    # a new full bucket (sequential short requests; in "ulim" also overlapping ones held in flight after idling)
+    tbn = lambda q, b: sch("tb", "tb", q=q, b=b)
+    for kind in ("disp", "ulim"):
+        hold = (lambda ops: [dict(o, hold=True) for o in ops]) if kind == "ulim" else (lambda ops: ops)
+        for first in (sch("tb", "mi", max=2), sch("tb", "ex")):
+            cs.append({"kind": kind, "q": 1, "b": 4, "pat": "type-change", "spec": [first, sch("mi1", "mi", max=5)], "ops":
+                       tries([0, 0, 0]) + [{"op": "sync", "spec": [tbn(1, 4), sch("mi1", "mi", max=5)]}] +
+                       tries([1] * 7) + hold(tries([10 * NS] * 6)) + tries([10 * NS + 1, 11 * NS, 11 * NS])})
+        cs.append({"kind": kind, "q": 2, "b": 5, "pat": "type-change", "spec": [tbn(2, 5)], "ops":
+                   tries([0] * 7) + [{"op": "sync", "spec": [sch("tb", "mi", max=3)]}] + tries([1, 1, 2]) +
+                   [{"op": "sync", "spec": [tbn(2, 5)]}] + hold(tries([3] * 7)) + tries([NS, NS, NS]) +
+                   [{"op": "sync", "spec": []}] + tries([NS + 1] * 3) +
+                   [{"op": "sync", "spec": [sch("tb", "ex")]}] + tries([NS + 2] * 2) +
+                   [{"op": "sync", "spec": [tbn(2, 5)]}] + tries([NS + 3] * 7)})
     # every kind of request takes a token, also what the server calls long running (watch, log, exec, proxy)
     for kinds in (["list"] + ["watch"] * 8, ["log"] * 6 + ["get"] * 3, ["exec", "proxy", "watch", "log"] * 3,
                   ["get", "list", "create", "update", "delete", "watch", "log", "exec", "proxy"] * 2):
@@ -330,7 +346,10 @@ def gen_multi(rng, kind):
     b = rng.choice([1, 2, 3, 5, 10])
     sibs = [gen_sibling(rng, n, t) for n, t in rng.sample(SIBS, rng.randint(1, 3))]
     spec = list(sibs)
-    spec.insert(rng.below(len(spec) + 1), sch("tb", "tb", q=q, b=b))
+    first = sch("tb", "tb", q=q, b=b)
+    if rng.chance(1, 5):                                # the name starts as another type and becomes a bucket later
+        first = sch("tb", rng.choice(["mi", "ex"]), q=q, b=b, max=rng.choice([1, 3, 10]))
+    spec.insert(rng.below(len(spec) + 1), first)
     case = {"kind": kind, "q": q, "b": b, "pat": "multi", "spec": spec, "ops": []}
     n = rng.randint(6, 30)
     ts, _ = gen_times(rng, q, b, n)
@@ -360,13 +379,29 @@ def gen_multi(rng, kind):
             elif k < 86:                                # same schemas, other order
                 new = rng.shuffle(new)
                 labels.add("reordered")
-            else:                                       # the bucket under test is reconfigured
+            elif k < 92:                                # the bucket under test is reconfigured
                 for x in new:
-                    if x["name"] == "tb":
+                    if x["name"] == "tb" and x["typ"] == "tb":
                         x["q"], x["b"] = rng.choice([1, 5, 10, 100]), rng.choice([1, 2, 5])
                 labels.add("tb-changed")
+            else:                                       # the schema under test changes TYPE in place
+                for x in new:
+                    if x["name"] == "tb":
+                        if x["typ"] == "tb":
+                            x.update(typ=rng.choice(["mi", "ex"]), max=rng.choice([1, 3, 10]))
+                        else:
+                            x.update(typ="tb", q=q, b=b)
+                labels.add("tb-type-changed")
             case["ops"].append({"op": "sync", "spec": new})
             cur = new
+    if kind == "ulim" and rng.chance(1, 2):             # overlapping requests: held in flight while "tb" is a bucket
+        typ = next(x["typ"] for x in spec if x["name"] == "tb")
+        for o in case["ops"]:
+            if o["op"] == "sync":
+                typ = next((x["typ"] for x in o["spec"] if x["name"] == "tb"), None)
+            elif typ == "tb" and rng.chance(2, 3):
+                o["hold"] = True
+        labels.add("overlapping")
     if kind == "disp":                                  # request-level: a mix of kinds, half of them long running
         mode = rng.below(3)
         for o in case["ops"]:
